@@ -676,9 +676,9 @@ fire('C13', 'belt-ready-event-never-fired', 'C13.R1', 'ready_item_event',
      lambda p: M.replace_node(p, S_BELT, 'BeltStore.move_to_ready_items', M.if_testing('self.ready_item_event.triggered'), 'pass'))
 fire('C13', 'belt-resume-never-fired', 'C13.R', 'BeltStore',
      lambda p: M.delete_stmt(p, S_BELT, 'BeltStore.resume_all_move_processes', M.stmt_calling('old_resume_event.succeed')))
-fire('C13', 'belt-handler-forgets-elapsed', 'C13.R2', 'interrupt-handler',
+fire('C13', 'belt-handler-forgets-elapsed', 'C13.R2', 'interrupted-travel-wait',
      lambda p: M.delete_stmt(p, S_BELT, 'BeltStore.move_to_ready_items', M.assign_to('remaining_phase2_time'), which=2))
-fire('C13', 'slot-handler-no-resume-wait', 'C13.R2', 'interrupt-handler',
+fire('C13', 'slot-handler-no-resume-wait', 'C13.R2', 'interrupted-travel-wait',
      lambda p: M.delete_stmt(p, S_SLOT, 'BeltStore.move_to_ready_items', lambda n: isinstance(n, ast.Expr) and isinstance(n.value, ast.Yield) and 'resume_event' in ast.unparse(n), which=0))
 fire('C13', 'belt-resume-fires-before-fresh-event', 'C13.R2', 'resume_all_move_processes',
      lambda p: M.chain(p, lambda q: M.delete_stmt(q, S_BELT, 'BeltStore.resume_all_move_processes', M.assign_to('self.resume_event')),
@@ -696,6 +696,15 @@ fire('C13', 'belt-gate-removed', 'C13.R4', 'BeltStore._do_reserve_put',
                               lambda s: 'if True:' + s[s.index(':', s.index('len(self.ready_items)==0) :') if 'len(self.ready_items)==0) :' in s else s.index(':')) + 1:]))
 fire('C13', 'machine-interrupts-belt-process', 'C13.R5', 'Machine.worker',
      lambda p: M.insert_after(p, N_MAC, 'Machine.worker', M.stmt_calling('self._update_avg_time_spent_in_processing'), 'self.env.active_process.interrupt("x")'))
+fire('C13', 'slot-handler-elapsed-read-after-resume', 'C13.R2', 'interrupted-travel-wait',
+     lambda p: M.chain(p, lambda q: M.delete_stmt(q, S_SLOT, 'BeltStore.move_to_ready_items', M.assign_to('remaining_phase1_time'), which=2),
+                       lambda q: M.insert_after(q, S_SLOT, 'BeltStore.move_to_ready_items',
+                                                lambda n: isinstance(n, ast.Expr) and isinstance(n.value, ast.Yield) and 'resume_event' in ast.unparse(n),
+                                                'remaining_phase1_time -= self.env.now - start_time', which=0)))
+silent('C13', 'slot-handler-locals-renamed',
+       lambda p: M.chain(p, lambda q: M.replace_node(q, S_SLOT, 'BeltStore.move_to_ready_items', M.assign_to('elapsed_time'), 'gone = self.env.now - start_time', which=0),
+                         lambda q: M.replace_node(q, S_SLOT, 'BeltStore.move_to_ready_items',
+                                                  lambda n: isinstance(n, ast.AugAssign) and ast.unparse(n.target) == 'remaining_phase1_time', 'remaining_phase1_time = remaining_phase1_time - gone', which=0)))
 silent('C13', 'belt-handler-extra-logging',
        lambda p: M.insert_before(p, S_BELT, 'BeltStore.move_to_ready_items', M.assign_to('remaining_phase1_time'), 'print("interrupted")', which=2))
 
